@@ -303,3 +303,10 @@ MUTANTS = [
     M("c17-no-swallow", "nostr_relay/storage/base.py", "super().__init__(self.collect_interval, swallow_exceptions=True)", "super().__init__(self.collect_interval)", "C17.driver"),
 ]
 EQUIVS = []
+
+# functions whose syntactic mutants are used for the thorough tier's sensitivity figure (sa/automut.py)
+ANCHORS = [
+    "nostr_relay.storage.db:QueryGarbageCollector.collect",
+    "nostr_relay.storage.kv:KVGarbageCollector.collect",
+    "nostr_relay.storage.kv:LMDBStorage.add_event",
+]
